@@ -47,6 +47,11 @@ class Opq:
         raise Unknown(f"truth value of {self!r}")
 
 
+class Atom(Opq):
+    """Opaque value known not to be a container: isinstance(x, (list, tuple, dict)) is False."""
+    pass
+
+
 class Raised:
     """Result of evaluating a `raise` term."""
     def __init__(self, what):
@@ -190,6 +195,8 @@ class Model:
             return self.call(t)
         if h == "partial":
             return Opq("partial", self.ev(t[1]), tuple(self.ev(x) for x in t[2]))
+        if h == "stack":
+            return stacked(self.ev(t[2]))
         # summaries (scan/lanes/loopres/…) are opaque but structural
         return Opq("term", t)
 
@@ -302,6 +309,8 @@ class Model:
                 if b == "isinstance":
                     classes = args[1] if isinstance(args[1], tuple) else (args[1],)
                     names = {c.parts[1].split(".")[-1] for c in classes if isinstance(c, Opq) and c.parts and c.parts[0] == "name"}
+                    if isinstance(a0, Atom) and names and names <= {"tuple", "list", "dict"}:
+                        return False
                     if isinstance(a0, Opq):
                         raise Unknown(f"isinstance of {a0!r}")
                     py = {"tuple": tuple, "list": list, "dict": dict, "int": int, "str": str, "bool": bool, "float": float}
@@ -335,6 +344,17 @@ class Model:
             if self.truth(c) != bool(v):
                 return False
         return True
+
+
+def stacked(v):
+    """Value of scan's stacked output whose per-iteration value is v (leaf-wise)."""
+    if isinstance(v, list):
+        return [stacked(x) for x in v]
+    if isinstance(v, tuple):
+        return tuple(stacked(x) for x in v)
+    if isinstance(v, dict):
+        return {k: stacked(x) for k, x in v.items()}
+    return Opq("stacked", v)
 
 
 def freeze(v):
